@@ -30,6 +30,7 @@ class Session:
         self.nontrivial = 0
         self.functions = set()
         self.ctx = None
+        self.parts = {}
         self.assumptions = [
             'environment models of std / roxmltree are trusted (smi/models.py); Inflector and url are the real crates called natively',
             'MIR dumped from /repo working tree with nightly rustc (-C debug-assertions=off -C overflow-checks=on)',
@@ -82,6 +83,10 @@ class Session:
         )
         if explanation:
             cov['explanation'] = explanation
+        for k, part in self.parts.items():
+            cov[k] = part
+            cov['evaluations'] += part.get('evaluations', 0)
+            cov['distinct_nontrivial'] += part.get('distinct_nontrivial', 0)
         write_evidence(self.prop, self.tier, level, cov, self.assumptions + list(extra_assumptions), time.time() - self.t0,
                        len(self.rep.viol))
         return self.rep.exit_code()
@@ -424,7 +429,136 @@ def c02(tier):
         s.functions.update(n for n in s.ctx.bodies if re.search(r'try_from_node|import_|read_(xsd|sequence|complex)|as_rust_type|write_(complex|type_alias)|field', n) and '::tests::' not in n)
         for sc, info in fams:
             scenario_check(s, sc, info, members_oracle, classify=occ_class)
+        if tier == 'thorough':
+            import e1props
+            s.parts['kani_builtin_table'] = e1props.c02_table_part(s.rep, tier)
+            s.assumptions.append('Kani part: to_pascal_case stubbed by a tagging function; RandomState::new stubbed (no getrandom under Kani)')
     return run_e2('C02', tier, body, bounds='scenario families S-seq, S-nest (sequence/choice inside sequence), S-ref-anon-fwd (all or 4 declaration '
                   'orders), S-xns (imported namespace); per member: name over %d case styles incl. keywords, type over the 27 builtins + user types, '
                   'minOccurs in {absent,0,1}, maxOccurs in {absent,1,2,unbounded} on the element and on the enclosing particle, use in {absent,optional,required}. '
                   'Outside: deeper nesting, more than 4 members per content model.' % (12 if tier == 'thorough' else 9))
+
+
+# ================================================================================================ C11
+
+def reach_formulas(info):
+    """z3 Bool per file: reachable from the (symbolic) start through the (symbolic) import edges"""
+    n = info.nfiles
+    start = info.start
+    wk = getattr(info, 'wk', {})
+
+    def edge(j, i):
+        ds = []
+        for k, sel in enumerate(info.edges[j]):
+            c = sel.var == info.opts.index(info.names[i])
+            nss = info.edge_ns.get((j, k)) if hasattr(info, 'edge_ns') else None
+            if nss is not None:
+                c = z3.And(c, nss.var == 0)
+            ds.append(c)
+        return z3.Or(*ds) if ds else z3.BoolVal(False)
+    r = [start.var == i for i in range(n)]
+    for _ in range(n):
+        r = [z3.Or(r[i], *[z3.And(r[j], edge(j, i)) for j in range(n) if j != i]) for i in range(n)]
+    missing_reach = z3.BoolVal(False)
+    if 'missing.xsd' in info.opts:
+        mi = info.opts.index('missing.xsd')
+        missing_reach = z3.Or(*[z3.And(r[j], sel.var == mi) for j in range(n) for sel in info.edges[j]])
+    return r, missing_reach
+
+
+def c11(tier):
+    def body(s):
+        ctx = s.ctx
+        s.functions.update(n for n in ctx.bodies if re.search(r'read_xml|read_xsd|process_import|::extend|extend_no_duplicates|::read$', n) and '::tests::' not in n)
+        fams = [F.import_graph(3, 2), F.import_graph(2, 2, with_missing=True)]
+        if tier == 'thorough':
+            fams += [F.import_graph(4, 2), F.import_graph(3, 3), F.import_graph(3, 2, with_missing=True)]
+        for sc, info in fams:
+            s.scenarios += 1
+            res = sc.explore(ctx, max_paths=60000)
+            s.count(res)
+            if len(res) > 1:
+                s.nontrivial += 1
+            reach, missing_reach = reach_formulas(info)
+            stats = dict(scenario=sc.name, files=info.nfiles, import_slots_per_file=info.slots, paths=len(res), ok=0, err=0, diverge=0, panic=0,
+                         symbolic='target of every import slot over %s; start file over %s' % (info.opts, info.names), violations=[])
+            reported = set()
+
+            def report(key, what, m, cond=None, expect='crash'):
+                if key in reported:
+                    return
+                model = sc.solve(m, cond)
+                if model is None:
+                    return
+                reported.add(key)
+                stats['violations'].append(key)
+                params = sc.params(model)
+                rc, txt, log_, files = sc.native(ctx, model)
+                s.replays += 1
+                graph = {fn: [params['imp_%d_%d' % (i, k)] for k in range(info.slots)] for i, fn in enumerate(info.names)}
+                rdir = save_replay('C11', re.sub(r'[^\w.-]+', '_', key)[:80], dict(list(files.items()) + [
+                    ('finding.txt', '%s\n%s\nstart=%s imports=%s\n' % (key, what, params['start'], graph)),
+                    ('native_output.rs', txt or ''), ('native_log.txt', (log_ or '')[-3000:])]))
+                if expect == 'crash':
+                    bad = rc != 0 and ('overflowed its stack' in (log_ or '') or rc in (-11, -6, 134, 139, -9))
+                else:
+                    bad = expect(rc, txt, log_, params)
+                if bad:
+                    s.rep.violation(key, '%s [start=%s imports=%s]' % (what, params['start'], graph), rdir)
+                else:
+                    s.rep.inconc('ENCODING-MISMATCH %s: native rc=%s %s' % (key, rc, (log_ or '')[-200:]))
+            for m, out in res:
+                pending = []
+
+                def queue(key, what, m_, cond=None, expect='crash'):
+                    pending.append((key, what, cond, expect))
+                if out[0] == 'diverge':
+                    stats['diverge'] += 1
+                    report('imports/non-termination', 'generation does not terminate on an import graph with a cycle (unbounded recursion)', m)
+                    continue
+                if out[0] == 'panic':
+                    stats['panic'] += 1
+                    report('imports/panic', 'panic: %s' % out[1], m, expect=lambda rc, txt, lg, p: rc != 0 and 'panicked' in (lg or ''))
+                    continue
+                r = out[1]
+                parsed = {e[1].split(':', 1)[1] for e in m.events if e[0] == 'parse' and e[1].startswith('\x00DOC:')}
+                # a file that was parsed must be reachable (unreachable siblings never matter)
+                for i, fn in enumerate(info.names):
+                    if fn in parsed:
+                        queue('imports/unreachable-file-read', 'file %s is parsed although it is not reachable from the start file' % fn, m, z3.Not(reach[i]),
+                               expect=lambda rc, txt, lg, p: True)
+                if r[0] != 'ok':
+                    stats['err'] += 1
+                    e = deref(r[1])
+                    kind = ENUMS['WriterError'][e.variant] if isinstance(e, Adt) and e.name == 'WriterError' else '?'
+                    # an error is only acceptable when a missing file is reachable
+                    queue('imports/unexpected-error/' + kind, 'generation fails with %s although every reachable import resolves' % kind, m, z3.Not(missing_reach),
+                           expect=lambda rc, txt, lg, p: rc != 0)
+                    continue
+                stats['ok'] += 1
+                text = H.rope_text(m, r[1])
+                conds = []
+                for i, fn in enumerate(info.names):
+                    cnt = len(re.findall(r'pub struct T%d \{' % i, text))
+                    if cnt > 1:
+                        queue('imports/component-duplicated', 'the type of %s is emitted %d times' % (fn, cnt), m, reach[i],
+                               expect=lambda rc, txt, lg, p, i=i: txt is not None and len(re.findall(r'pub struct T%d \{' % i, txt)) > 1)
+                    if cnt == 0:
+                        queue('imports/component-missing', 'the type of reachable file %s is not emitted' % fn, m, reach[i],
+                               expect=lambda rc, txt, lg, p, i=i: txt is not None and len(re.findall(r'pub struct T%d \{' % i, txt)) == 0)
+                    if cnt >= 1:
+                        queue('imports/unreachable-component-emitted', 'the type of unreachable file %s is emitted' % fn, m, z3.Not(reach[i]),
+                               expect=lambda rc, txt, lg, p, i=i: txt is not None and len(re.findall(r'pub struct T%d \{' % i, txt)) >= 1)
+                # Ok although a missing file is reachable?
+                queue('imports/missing-file-ignored', 'generation succeeds although a reachable import names a file that does not exist', m, missing_reach,
+                       expect=lambda rc, txt, lg, p: rc == 0)
+                live = [p for p in pending if p[0] not in reported]
+                if live:
+                    disj = z3.Or(*[p[2] if p[2] is not None else z3.BoolVal(True) for p in live])
+                    if sc.solve(m, disj) is not None:
+                        for key, what, cond, expect in live:
+                            report(key, what, m, cond, expect)
+            s.samples.append(stats)
+    return run_e2('C11', tier, body, bounds='every import multigraph over 3 files with 2 import slots each and every start file (quick), plus 2 files with a missing target; '
+                  'thorough: 4 files x 2 slots, 3 files x 3 slots, 3 files with missing targets. Reachability is encoded as a z3 formula over the slot selectors. '
+                  'Divergence = call depth > 60 frames. Outside: more files, malformed siblings (never parsed: shown by the parse-event check).')
